@@ -14,6 +14,7 @@ import (
 	"github.com/tetratelabs/wazero/api"
 	"github.com/tetratelabs/wazero/experimental"
 	"github.com/tetratelabs/wazero/experimental/table"
+	"github.com/tetratelabs/wazero/imports/wasi_snapshot_preview1"
 
 	"verifharness/sim"
 	"verifharness/tape"
@@ -32,6 +33,9 @@ func (c04) Classes() []sim.Class {
 		cs = append(cs,
 			sim.Class{Name: "graph", Engine: e, Quick: 1200, Thorough: 60000, DeathIsViolation: true, RunTimeoutSec: 120},
 			sim.Class{Name: "graph-moving-allocator", Engine: e, Quick: 500, Thorough: 25000, DeathIsViolation: true, RunTimeoutSec: 120},
+			// several instances of ONE compiled module around one imported table: every call form that crosses
+			// from one instance into a sibling (twins.go)
+			sim.Class{Name: "twins", Engine: e, Quick: 600, Thorough: 30000, DeathIsViolation: true, RunTimeoutSec: 60},
 		)
 	}
 	return cs
@@ -189,6 +193,9 @@ func build(s *spec, specs []*spec) []byte {
 		}
 		m.ImportFunc(modName(j), name, p, r)
 	}
+	// WASI sched_yield: "id" calls it, so a function that survives in a shared table needs its own
+	// instance's system context (the default Osyield does nothing)
+	yieldFn := m.ImportFunc("wasi_snapshot_preview1", "sched_yield", nil, i32)
 	growImp := -1
 	if s.memFrom >= 0 {
 		// the memory owner's grow function: lets a caller hold a memory base across a growing callee
@@ -316,7 +323,7 @@ func build(s *spec, specs []*spec) []byte {
 	// functions
 	tI := m.AddType(i32, i32)
 	c := func() *wasmb.Code { return &wasmb.Code{} }
-	idFn := m.AddFunc(i32, i32, nil, c().LocalGet(0).I32Const(10).I32Mul().GlobalGet(ownG).I32Add().B, "id")
+	idFn := m.AddFunc(i32, i32, nil, c().Call(yieldFn).Drop().LocalGet(0).I32Const(10).I32Mul().GlobalGet(ownG).I32Add().B, "id")
 	m.AddFunc(i32, i32, nil, c().LocalGet(0).I32Const(8).I32Mul().I32Load(0).B, "rd_cell")
 	m.AddFunc([]wasmb.ValType{wasmb.I32, wasmb.I32}, nil, nil, c().LocalGet(0).I32Const(8).I32Mul().LocalGet(1).I32Store(0).B, "wr_cell")
 	m.AddFunc(nil, i32, nil, c().MemorySize().B, "mem_size")
@@ -415,6 +422,7 @@ func build(s *spec, specs []*spec) []byte {
 }
 
 type runner struct {
+	closedLeaf map[int]bool // instances closed by the leaf-close step
 	t          *tape.Tape
 	res        *sim.Result
 	rt         wazero.Runtime
@@ -455,6 +463,9 @@ func (r *runner) compatible(s *spec) (bool, string) {
 }
 
 func (c04) Run(t *tape.Tape, cfg sim.Config) (res sim.Result) {
+	if cfg.Class == "twins" {
+		return runTwins(t, cfg)
+	}
 	ctx := context.Background()
 	r := &runner{t: t, res: &res, ctx: ctx, lastWriter: map[any]int{}}
 	var rc wazero.RuntimeConfig
@@ -475,6 +486,9 @@ func (c04) Run(t *tape.Tape, cfg sim.Config) (res sim.Result) {
 	rc = rc.WithCoreFeatures(api.CoreFeaturesV2 | experimental.CoreFeaturesThreads)
 	r.rt = wazero.NewRuntimeWithConfig(ctx, rc)
 	defer r.rt.Close(ctx)
+	if _, err := wasi_snapshot_preview1.Instantiate(ctx, r.rt); err != nil {
+		panic(err)
+	}
 	ninit := t.Range(2, 3)
 	for i := 0; i < ninit && res.Violation == nil; i++ {
 		r.instantiate(i > 0 && t.Chance(1, 5))
@@ -991,6 +1005,10 @@ func (r *runner) step() {
 		r.log("close m%d (a leaf: nobody imports from it) err=%v", c.idx, err)
 		r.res.Stat("fault.close_leaf_instance", 1)
 		r.insts[c.idx] = nil
+		if r.closedLeaf == nil {
+			r.closedLeaf = map[int]bool{}
+		}
+		r.closedLeaf[c.idx] = true
 		c = nil
 		for i := 0; i < 2; i++ {
 			done := make(chan struct{})
@@ -1152,6 +1170,13 @@ func (r *runner) checkAll(after string) {
 				continue // function of a closed instance: lifetime questions belong to C09
 			}
 			res, err := r.call(in, "tab_call", uint64(s), 7)
+			if ref.inst >= 0 && r.closedLeaf[ref.inst] && err != nil && strings.Contains(err.Error(), "nil pointer dereference") && strings.Contains(err.Error(), "sched_yield") {
+				// the function of a CLOSED instance reached its WASI call: Close took the instance's system
+				// context away (what a closed instance's functions may still do is C09's subject, and this
+				// mechanism is recorded under C07); the function itself was found and entered
+				r.res.Stat("probe.closed_instance_function_hit_missing_sys_context", 1)
+				continue
+			}
 			if ref.inst < 0 {
 				if err == nil || !strings.Contains(err.Error(), "invalid table access") {
 					r.res.Fail("view-diverged", "after %s: m%d calls null slot %d: %v %v, model expects an invalid table access trap", after, in.idx, s, res, errLine(err))
